@@ -260,6 +260,18 @@ DEFECTS = (
     ('indirect-wrong-type-2nd-reference-program-name', '% @[IND2]@', ('VALIDATION_ERROR',), None),
     ('bad-integer-expression', 'timeout = 1+', ('VALIDATION_ERROR',), None),
     ('bad-integer-name', 'timeout = abc', ('VALIDATION_ERROR',), None),
+    # integer expressions whose evaluation ends in every other way than an integer (round 9: C03-r9m1 let SystemExit escape -
+    # `exit-code == exit(0)` ended the program with exit code 0 and nothing printed)
+    ('bad-integer-exit-0', 'timeout = exit(0)', ('VALIDATION_ERROR',), None),
+    ('bad-integer-quit', 'timeout = quit()', ('VALIDATION_ERROR',), None),
+    ('bad-integer-exit-3-in-assertion', 'exit-code == exit(3)', ('VALIDATION_ERROR',), 'assert-only'),
+    ('bad-integer-division-by-zero', 'timeout = 1//0', ('VALIDATION_ERROR',), None),
+    ('bad-integer-float', 'timeout = 1.5', ('VALIDATION_ERROR',), None),
+    ('bad-integer-too-large-to-display', 'timeout = 10**5000', ('VALIDATION_ERROR',), None),
+    ('bad-integer-negative-timeout', 'timeout = -1', ('VALIDATION_ERROR',), None),
+    ('bad-integer-in-line-range', "file li.txt = 'x' -transformed-by filter -line-nums exit(0)", ('VALIDATION_ERROR',), None),
+    ('bad-integer-in-num-lines', "contents f1.txt : num-lines == quit()", ('VALIDATION_ERROR',), 'assert-only'),
+    ('bad-integer-via-string-symbol', 'def string EXITING = exit(0)\ntimeout = @[EXITING]@', ('VALIDATION_ERROR',), None),
     ('bad-regex', "file r.txt = -contents-of -rel-home existing.txt -transformed-by replace '(' y", ('VALIDATION_ERROR',), None),
     # validation that is accumulated through references to program symbols (round 4: C03-r4m1 dropped the validators of
     # arguments added where a program symbol is referenced)
